@@ -5,7 +5,7 @@
    the token tree it was written from, for each renderer's token sets. *)
 From Coq Require Import ZArith List Bool Lia.
 From Mistletoe Require Import Base.Sx Base.PyStr Base.PyText Gen.GenTables Gen.GenConfig Model.Tree Model.CoreTokens Model.Block Model.Build
-     Model.Parser Proofs.PlainProse Proofs.Prose Proofs.ProseLines Proofs.ListLaw Proofs.FenceLaw Spec.Fragment Proofs.FragmentP Proofs.EmphSimple Proofs.InertProse Proofs.RefSentence.
+     Model.Parser Proofs.PlainProse Proofs.Prose Proofs.ProseLines Proofs.ListLaw Proofs.FenceLaw Spec.Fragment Proofs.FragmentP Proofs.EmphSimple Proofs.InertProse Proofs.RefSentence Proofs.CodeSpan.
 Import ListNotations.
 Local Open Scope Z_scope.
 
@@ -61,7 +61,7 @@ Lemma deep_line : forall f t, (depth t <= f)%nat -> wf_b t = true -> exists l, I
 Proof.
   induction f as [|f IH].
   - intros t Hd Hw.
-    destruct t as [c body more|ch n content|ts|mk pad ts|mk pad ts bl next|lv hc hb|rc rn|e0 epre ech edbl ew epost|l0 lpre lw ldest lpost|s0 st0' sgs]; [| |cbn [depth] in Hd; lia|cbn [depth] in Hd; lia|cbn [depth] in Hd; lia| | | | |].
+    destruct t as [c body more|ch n content|ts|mk pad ts|mk pad ts bl next|lv hc hb|rc rn|e0 epre ech edbl ew epost|l0 lpre lw ldest lpost|s0 st0' sgs|k0 kpre kcode kpost]; [| |cbn [depth] in Hd; lia|cbn [depth] in Hd; lia|cbn [depth] in Hd; lia| | | | | |].
     + exists (SLine 0 c body). split; [left; reflexivity|cbn [depth weight]; lia].
     + exists (SLine 0 ch (repeat ch (n - 1))). split; [left; reflexivity|cbn [depth weight]; lia].
     + eexists. split; [left; reflexivity|cbn [depth weight]; lia].
@@ -69,7 +69,8 @@ Proof.
     + eexists. split; [left; reflexivity|cbn [depth weight]; lia].
     + eexists. split; [left; reflexivity|cbn [depth weight]; lia].
     + eexists. split; [left; reflexivity|cbn [depth weight]; lia].
-  - intros t. induction t as [c body more|ch n content|ts|mk pad ts|mk pad ts bl next IHn|lv hc hb|rc rn|e0 epre ech edbl ew epost|l0 lpre lw ldest lpost|s0 st0' sgs]; intros Hd Hw.
+    + eexists. split; [left; reflexivity|cbn [depth weight]; lia].
+  - intros t. induction t as [c body more|ch n content|ts|mk pad ts|mk pad ts bl next IHn|lv hc hb|rc rn|e0 epre ech edbl ew epost|l0 lpre lw ldest lpost|s0 st0' sgs|k0 kpre kcode kpost]; intros Hd Hw.
     + exists (SLine 0 c body). split; [left; reflexivity|cbn [depth weight]; lia].
     + exists (SLine 0 ch (repeat ch (n - 1))). split; [left; reflexivity|cbn [depth weight]; lia].
     + cbn [wf_b] in Hw. repeat rewrite andb_true_iff in Hw. destruct Hw as [[Hs Hall] Hg].
@@ -90,6 +91,7 @@ Proof.
                       negb (thematic_start (item_first_line mk pad (join_blank (map spell ts)))) = true) by (repeat rewrite andb_true_iff; exact Hw).
         destruct (item_deep_line f IH mk pad ts ltac:(lia) Hw') as (l & Hl & Wl).
         exists l. split; [|exact Wl]. cbn [spell]. apply in_or_app. left. exact Hl.
+    + eexists. split; [left; reflexivity|cbn [depth weight]; lia].
     + eexists. split; [left; reflexivity|cbn [depth weight]; lia].
     + eexists. split; [left; reflexivity|cbn [depth weight]; lia].
     + eexists. split; [left; reflexivity|cbn [depth weight]; lia].
@@ -117,7 +119,7 @@ Qed.
 (* Document(lines) on the spelled text of a tree *)
 Theorem fragment_document cfg t :
   fragment_config (cfg_block cfg) = true -> prose_spans (cfg_span cfg) = true -> emph_spans (cfg_span cfg) = true ->
-  inert_spans (cfg_span cfg) = true -> ref_spans (cfg_span cfg) = true -> wf_b t = true ->
+  inert_spans (cfg_span cfg) = true -> leaf_spans (cfg_span cfg) = true -> wf_b t = true ->
   fst (fst (parse_lines cfg (text_of (spell t)))) = Document [tok_of false t].
 Proof.
   intros Hc Hq He Hi Hr Hw. pose proof (fuel_suffices t Hw) as Hf.
@@ -158,7 +160,7 @@ Qed.
 
 Theorem fragment_seq_document cfg ts :
   fragment_config (cfg_block cfg) = true -> prose_spans (cfg_span cfg) = true -> emph_spans (cfg_span cfg) = true ->
-  inert_spans (cfg_span cfg) = true -> ref_spans (cfg_span cfg) = true -> seq_ok_b ts = true -> forallb wf_b ts = true ->
+  inert_spans (cfg_span cfg) = true -> leaf_spans (cfg_span cfg) = true -> seq_ok_b ts = true -> forallb wf_b ts = true ->
   fst (fst (parse_lines cfg (text_of (join_blank (map spell ts))))) = Document (tok_seq false ts).
 Proof.
   intros Hc Hq He Hi Hr Hs Hw.
@@ -186,6 +188,6 @@ Proof.
 Qed.
 
 Lemma document_configs :
-  forallb (fun c => fragment_config (cfg_block c) && prose_spans (cfg_span c) && emph_spans (cfg_span c) && inert_spans (cfg_span c) && ref_spans (cfg_span c))
+  forallb (fun c => fragment_config (cfg_block c) && prose_spans (cfg_span c) && emph_spans (cfg_span c) && inert_spans (cfg_span c) && leaf_spans (cfg_span c))
           [cfg_html; cfg_html_nohtml; cfg_latex; cfg_mathjax; cfg_default] = true.
 Proof. vm_compute. reflexivity. Qed.
